@@ -34,6 +34,7 @@ fn main() {
       "--known" => { known = v.split(',').filter(|s| !s.is_empty()).map(|s| s.to_string()).collect(); k += 1; }
       "--out" => { out = v; k += 1; }
       "--replay" => { replay = Some(v); k += 1; }
+      "--lastcase" => { set_lastcase_path(&v); k += 1; }
       "--worker" => { mon::worker_main(&args[k + 1..]); return; }
       _ => { eprintln!("unknown arg {}", a); std::process::exit(3); }
     }
